@@ -45,6 +45,9 @@ func init() {
 				`f = (a,b) => {t = a - b}`, `f = (a,b) => {return a - b}`, `f = (a,b) => {a < b || a > b}`, `f = (a,b) => {a < b && b < 9}`, `f = (a,b) => {t := a * b}`, `f = (a,b) => {[a:b]}`, `f = (a,b) => {(x => x + a)(b)}`, `f = (a,b) => {x => x + a + b}`,
 				`f = (a,b) => {if a < b {a} else {b}}`, `f = (a,b) => {for i = a {b = b + i}}`, `f = (a,b) => {a; b}`, `f = (a,b) => {-a}`, `f = (a,b) => {a--}`, `f = (a,b) => {{"k": a - b}}`, `f = (a,b) => {[a - b]}`, `f = (a,b) => {println(a); return b}`,
 				`f = a => {t = a * 2}`, `f = a => {return a * 2}`, `f = a => {a > 2 || a < 0}`,
+				// a function bound under another name; bodies that are empty, only a comment, or start with a map literal
+				`func nm(a,b){a+b}; al = nm`, `f = func g2(a){a*2}`, `func nm(a){a+1}; al = nm; del(nm)`, `f = a => {/* nothing */}`, `f = a => {}`, `f = a => {/* c */ a+1}`, `f = a => {a+1 /* c */}`,
+				`f = a => {{"k":a}.k}`, `f = a => {{"k":a}["k"]}`, `f = a => {{1:2}+{3:a}}`, `f = (a,b) => {{a:b}}`, `f = a => {[a][0]}`, `f = a => {(a)}`, `f = a => {-a}`, `f = a => {"s" + "t"}`,
 				`ab = 1`, `a_b1 = 2`, `x = 1; y = 2; z = x + y`, `K = 5`, `x = [1,2]; y = x; z = {x: y}`,
 			} {
 				j("none", "0", in)
@@ -62,7 +65,7 @@ func init() {
 		Bounds: map[string]interface{}{"strings": "all strings of 1 arbitrary byte (2 thorough) as a global, inside an array, as map key and value: strconv.Quote, the lexer's readString and the parser run from their own code on the symbolic bytes (atoms off)",
 			"integers":  "all integers with |i| < 20 (1000 thorough) through strconv.FormatInt, the lexer and strconv.ParseInt executed digit by digit; both int64 extremes as concrete paths",
 			"floats":    "concrete witnesses only (integral-valued, subnormal, huge, infinity, -0, 0.1+0.2): FormatFloat/ParseFloat are not encoded - this is NOT an all-floats claim",
-			"structure": "booleans, nil, strings with escapes, arrays and maps on both sides of the 8/4 thresholds, map keys of every type, nested containers, 52 function/lambda shapes (19 lambdas whose body is an assignment, a return, ||, &&, a range, another lambda, if, for, two statements, ...) (16 of them with a body whose value depends on parentheses) (re-saved text equal and same behaviour on sample arguments), MaxValueLen at 9..13 around a 11-byte value"},
+			"structure": "booleans, nil, strings with escapes, arrays and maps on both sides of the 8/4 thresholds, map keys of every type, nested containers, 67 function/lambda shapes (19 lambdas whose body is an assignment, a return, ||, &&, a range, another lambda, if, for, two statements, ...) (16 of them with a body whose value depends on parentheses) (re-saved text equal and same behaviour on sample arguments), MaxValueLen at 9..13 around a 11-byte value"},
 		Outside: []string{"floats other than the witnesses", "integers beyond the digit bound other than the extremes", "strings longer than 1 (2) arbitrary bytes"},
 	})
 }
